@@ -442,6 +442,13 @@ def recovery_after_refusals(chk, lim, fams):
     return out
 
 
+HARD_DOCS = [
+    "<!DOCTYPE r [<!ENTITY e '&f;'><!ENTITY f '&e;'>]><r a='&e;' b='2'>&e;<k>1</k></r>",
+    "<!DOCTYPE r [<!ENTITY e 'x&e;'>]><r a='1&e;' b='2'><k>&e;</k></r>",
+    "<r xml:lang='\u65e5\u672c\u8a9e-JP' a='1' b='\u00e9'><p xml:lang='\u00e9'>t<k>1</k></p><q xml:lang=''/><p xml:lang='e\u0301-x'>u</p><p xml:lang='\U0001d4b3'/></r>",
+]
+
+
 def run_c06(chk):
     thorough = chk.tier == "thorough"
     rng = random.Random(lib.seed())
@@ -508,6 +515,26 @@ def run_c06(chk):
             chunk = axes_ex[i:i + B]
             qs.append((sd, XP.BINDINGS, [e for _, e in chunk]))
             meta.append(chunk)
+    # every operator and function over operands that are HARD to convert: a node whose string-value cannot be computed (a
+    # general entity that refers to itself, used in an attribute value and in content), language tags and arguments with
+    # multi-byte characters (round-6 seeds C06-G: arithmetic unwrapped the conversion; C06-H: lang() sliced the tag at a byte offset)
+    for hd in HARD_DOCS:
+        hard = []
+        for x in ("/r/@a", "/r", "//k", "/r/text()", "//@*", "/r/@b"):
+            for tmpl in ("%s + 1", "1 + %s", "%s - 1", "%s * 2", "%s div 2", "%s mod 2", "-%s", "%s = 1", "%s != 1", "%s < 1", "%s > %s",
+                         "string(%s)", "number(%s)", "boolean(%s)", "sum(%s)", "concat(%s,'a')", "string-length(%s)",
+                         "normalize-space(%s)", "contains(%s,'a')", "starts-with(%s,'a')", "substring(%s,1,2)",
+                         "substring-before(%s,'a')", "substring-after(%s,'a')", "translate(%s,'a','b')", "floor(%s)",
+                         "ceiling(%s)", "round(%s)", "count(%s)", "name(%s)", "local-name(%s)", "namespace-uri(%s)",
+                         "//*[%s]", "//*[%s = .]", "//*[%s = 'x']", "%s | //k", "(%s)[1]"):
+                hard.append(("hard-operand", tmpl.replace("%s", x)))
+        for L in ("ja", "j", "\u65e5", "\u65e5\u672c", "\u65e5\u672c\u8a9e", "\u65e5\u672c\u8a9e-JP", "\u00e9", "e\u0301", "en", "", "EN-us-x", "\U0001d4b3"):
+            for tmpl in ("//*[lang('%s')]", "boolean(//p[lang('%s')])", "//@*[lang('%s')]", "//text()[lang('%s')]", "count(//node()[lang('%s')])"):
+                hard.append(("hard-lang", tmpl % L))
+        for i in range(0, len(hard), B):
+            chunk = hard[i:i + B]
+            qs.append((hd, XP.BINDINGS, [e for _, e in chunk]))
+            meta.append(chunk)
     per_line = 20 if thorough else 10
     lines = [lib.req("qfresh", t, b, *es) for t, b, es in qs]
     impl = lib.run_lines(lib.build_harness(), lines, timeout=per_line * len(lines), per_line_resume=True)
@@ -529,6 +556,11 @@ def run_c06(chk):
             else:
                 cx = x if x.startswith("err") else "ok"
                 cy = y if y.startswith("err") else "ok"
+                # the XPath model builds its document with every reference expanded and refuses a self-referential entity
+                # there (err:doc); the library accepts the document and reports the cycle when the value is asked for
+                # (err:evaluation or a value that needs no expansion): on those documents only the monitor applies
+                if w.startswith("hard") and m.startswith("err:doc"):
+                    continue
                 if cx != cy and not (classify_ns(e, x, y)):
                     tdis.append((t, e, cx, cy))
     # ---- hostile sizes on the real code only: nesting far beyond the limit read from the source (MAX_EXPR_DEPTH) and long
@@ -624,9 +656,15 @@ def run_c07(chk):
             A, Bx = eg.nodeset(0), eg.nodeset(0)
             a, b = _spell(rng, A), _spell(rng, Bx)
             k = rng.choice([1, 2, 3])
+            # several predicates on one parenthesised node-set apply one after the other: a later one counts positions in
+            # what the earlier ones left (round-6 seed C07-G applied them all in one pass over the original list)
+            p1 = rng.choice(["@*", "*", "position()>1", "position()<last()", "not(self::text())", "text()", "position() mod 2 = 1",
+                             "self::*", "not(@*)", "string-length(name())>0"])
+            k2 = rng.choice(["1", "2", "last()", "last()-1", "position()=1 or position()=last()"])
             group = [a, b, "(%s)|(%s)" % (a, b), "(%s)|(%s)" % (b, a), "(%s)|(%s)" % (a, a),
                      "count((%s)|(%s))" % (a, b), "count(%s)" % a, "count(%s)" % b, "(%s)[%d]" % (a, k),
-                     "(%s)|(%s)|(%s)" % (a, b, a), "((%s)|(%s))|(%s)" % (a, b, b)]
+                     "(%s)|(%s)|(%s)" % (a, b, a), "((%s)|(%s))|(%s)" % (a, b, b),
+                     "(%s)[%s][%s]" % (a, p1, k2), "((%s)[%s])[%s]" % (a, p1, k2)]
             es += group
             m.append((a, b, k))
         qs.append((t, XP.BINDINGS, es))
@@ -729,10 +767,10 @@ def run_c07(chk):
         fa, raw, _ = _fields(a, len(es))
         fm, _, _ = _fields(m, len(es))
         for gi, (ea, eb, k) in enumerate(ms):
-            g = raw[gi * 11:(gi + 1) * 11]
-            gs = fa[gi * 11:(gi + 1) * 11]
-            gm = fm[gi * 11:(gi + 1) * 11]
-            ge = es[gi * 11:(gi + 1) * 11]
+            g = raw[gi * 13:(gi + 1) * 13]
+            gs = fa[gi * 13:(gi + 1) * 13]
+            gm = fm[gi * 13:(gi + 1) * 13]
+            ge = es[gi * 13:(gi + 1) * 13]
             for e, r, s_, y in zip(ge, g, gs, gm):
                 items = XP.node_items(r)
                 nontriv = len(items) >= 2
@@ -759,7 +797,10 @@ def run_c07(chk):
                 if s_ != y and not (classify_ns(e, s_, y) and "namespace-nodes" in findings):
                     tdis.append((t, e, s_, y))
             # (2) set algebra on the implementation's results
-            A_, B_, AB, BA, AA, cAB, cA, cB, Ak, ABA, AB_B = gs
+            A_, B_, AB, BA, AA, cAB, cA, cB, Ak, ABA, AB_B, PP, PQ = gs
+            if PP != PQ and not classify_ns(ea, PP, PQ):
+                mfail.append((t, "%s vs %s" % (ge[11], ge[12]), "successive predicates on a parenthesised node-set do not count in what "
+                              "the earlier predicate left", PP + " / " + PQ))
             if A_.startswith("N:") and B_.startswith("N:") and not classify_ns(ea + eb, A_, B_):
                 if AB != BA:
                     mfail.append((t, "(%s)|(%s) vs (%s)|(%s)" % (ea, eb, eb, ea), "union is not commutative", AB + " / " + BA))
@@ -775,6 +816,11 @@ def run_c07(chk):
                 if Ak.startswith("N:") and Ak != want:
                     mfail.append((t, "(%s)[%d]" % (ea, k), "positional filter on a parenthesised node-set does not count in document order",
                                   Ak + " expected " + want))
+    # the same node-sets from a context that has been used before - on another document, with queries that failed after they had
+    # sorted nodes: still each node once, in document order, i.e. exactly what a fresh context gives
+    sw_fail, sw_n = context_switch_stream(chk, rng, lib.build_harness(), [t for t, _, _ in qs], 60 if thorough else 25)
+    mfail += sw_fail
+    chk.cov["context_switched_between_documents"] = sw_n
     chk.cov["result_sizes"] = sizes
     chk.cov["disagreements_checked"] = len(tdis)
     chk.cov["rule"] = ("%d documents x 4 pairs (A, B) of generated node-set expressions; for A, B, A|B, B|A, A|A, A|B|A, (A|B)|B, "
@@ -1046,6 +1092,36 @@ def run_c10(chk):
 
 
 # ---------------------------------------------------------------------------------------------------------
+def context_switch_stream(chk, rng, h, texts, n):
+    """ONE context, TWO documents: queries (some failing after they had already collected and sorted nodes) on document A, then
+    queries on document B with the same context: B's answers must be those of a fresh context (round-6 seed C07-H kept
+    document-order keys by node id in the context when a query failed; a twin document has the same ids)"""
+    late_fail = ["//* | //zz:x", "(//*)[$v]", "count(//*) + nosuch()", "//node() | //@*[nosuch()]", "(//node())[last()][zz:a]",
+                 "//*[position() = last()] | //*[$v]", "sum(//*) + count(1, 2)"]
+    sw, out = [], []
+    for i in range(n):
+        ta = rng.choice(texts)
+        tb = ta if rng.random() < 0.4 else rng.choice(texts)
+        first = [rng.choice(late_fail + FAILING + PROBES) for _ in range(rng.randint(1, 4))] + [rng.choice(late_fail)]
+        then = [rng.choice(["//*", "//node()", "//@*", "(//*)[2]", "//*[last()]", "count(//node())", "//text() | //*", "//* | //@*"] + PROBES)
+                for _ in range(5)]
+        sw.append((ta, tb, first, then))
+    sw_out = lib.run_lines(h, [lib.req("qswitch", ta, tb, XP.BINDINGS, str(len(first)), *(first + then)) for ta, tb, first, then in sw],
+                           timeout=900, per_line_resume=True)
+    sw_fresh = lib.run_lines(h, [lib.req("qfresh", tb, XP.BINDINGS, *then) for ta, tb, first, then in sw], timeout=900, per_line_resume=True)
+    for (ta, tb, first, then), a, f in zip(sw, sw_out, sw_fresh):
+        fa, _, _ = _fields(a, len(then))
+        ff, _, _ = _fields(f, len(then))
+        chk.count(["switch", ta, tb] + first + then, nontrivial=True)
+        for e, x, y in zip(then, fa, ff):
+            if x != y:
+                out.append((tb, " ; ".join(first) + "  [on another document: %s]  then  %s" % (lib.enc(ta)[:300], e),
+                            "a context that was used on another document (with failing queries) answers differently from a fresh one "
+                            "(order / duplicates / selection of the node-set)", x + "  /  fresh: " + y))
+                break
+    return out, len(sw)
+
+
 FAILING = ["//*[nosuch()]", "//*[$v]", "//*[count(1)]", "//*[zz:a]", "nosuch()", "$v", "count(1,2)", "//*[position()=1][count('x')]",
            "(//*)[nosuch()]", "//*[1][sum('a')]", "//@*[id('x')]", "1 +", "//*[", "//*[last() = 1 and nosuch()]"]
 PROBES = ["position()", "last()", "position() + last()", "count(//*)", "string(/*)", "//*[position()=last()]", "//*[1]", "(//*)[last()]"]
@@ -1098,6 +1174,23 @@ def run_c19(chk):
     for od in odocs:
         for _ in range(4):
             qs.append((od, XP.BINDINGS, [rng.choice(oq) for _ in range(8)]))
+    # entities whose replacement text refers to other entities, used in attribute values (white space normalised) and in content
+    # (kept): reading one must not change what the other reports, nor the declarations (round-6 seed C19-H wrote the first
+    # expansion back into the declaring entity)
+    ndoc = ("<!DOCTYPE r [<!ENTITY inner 'x\ny'><!ENTITY mid '(&inner;)'><!ENTITY outer '[&mid;&inner;]'>"
+            "<!ATTLIST r d CDATA '&outer;'>]><r k='&outer;' m='&mid;'>&outer;<a>&mid;</a><b n='&inner;'>&inner;</b></r>")
+    nq = ["string(/r/@k)", "string(/r)", "string(/r/a)", "string(/r/@m)", "string(/r/@d)", "string(/r/b/@n)", "string(/r/b)",
+          "string-length(/r/@k)", "count(//text())", "normalize-space(/r)", "/r/@k = /r/@d", "contains(/r, /r/a)"]
+    for _ in range(10):
+        seq = [rng.choice(nq) for _ in range(8)]
+        qs.append((ndoc, XP.BINDINGS, seq))
+    qs.append((ndoc, XP.BINDINGS, nq))
+    qs.append((ndoc, XP.BINDINGS, list(reversed(nq))))
+    # a LONG series on one context: whatever a query consumes (budgets, caches, counters) must be given back when it ends
+    # (round-6 seed C19-G: a step budget of 50 000 per context that no query reset)
+    ldoc = "<r>" + "".join("<i n='%d'><j/>t</i>" % i for i in range(60)) + "</r>"
+    lq = ["count(//*)", "count(//j)", "string(//i[last()]/@n)", "count(//i[j]/text())", "//i[7]/@n", "sum(//@n)"]
+    qs.append((ldoc, XP.BINDINGS, lq * (400 if thorough else 150)))
     h = lib.build_harness()
     one = lib.run_lines(h, [lib.req("query", t, b, *es) for t, b, es in qs], timeout=900, per_line_resume=True)
     fresh = lib.run_lines(h, [lib.req("qfresh", t, b, *es) for t, b, es in qs], timeout=900, per_line_resume=True)
@@ -1155,6 +1248,9 @@ def run_c19(chk):
     for t, x, y in zip(texts + texts, p1, p2):
         if x != y:
             mfail.append((t, "parse / print twice", "parsing the same text twice gives different documents", x[:200] + " / " + y[:200]))
+    sw_fail, sw_n = context_switch_stream(chk, rng, h, texts[len(lims):], 120 if thorough else 40)
+    mfail += sw_fail
+    chk.cov["context_switched_between_documents"] = sw_n
     # documents EDITED through the DOM (adjacent and empty text nodes, detached trees, moved subtrees: states the parser
     # never produces): after every step a battery of queries is evaluated on the live document and the full snapshot of
     # the tree (shape, node identities, segmentation of character data, detached trees) must be what it was before
